@@ -33,7 +33,7 @@ def strip_comment(l):
     return l
 print("applied=0")
 for l in lines:
-    l=re.sub(r"/tmp/mut2?/C[0-9]+",W,l)
+    l=re.sub(r"/tmp/mut[0-9]*/C[0-9]+",W,l)
     l=re.sub(r"^\s*[$>]\s+","",l)
     s=strip_comment(l).strip()
     if not s or s.startswith("#"): continue
